@@ -3,9 +3,11 @@ CONSTANTS
   AtomNames = {"nil", "boolean", "integer", "number", "string", "table", "true", "false", "1", "-1", "s", "sp", "dq", "bs", "A", "B", "Al", "E"}
   SibNames = {"integer", "nil", "s"}
   KeyNames = {"string", "integer"}
-  RecShapes1 = {"x", "x?", "[1]", "['a-b']", "[string]"}
-  RecShapes2 = {"x,y?", "x,[string]"}
+  RecShapes1 = {"x", "x?", "[1]", "['a-b']", "[string]", "['a b']", "['1']", "['a\"b']", "['']"}
+  RecShapes2 = {"x,y?", "x,[string]", "x,['a b']"}
   Depth2Kinds = {"union", "opt", "arr", "map", "rec"}
   Depth3Kinds = {"opt", "arr", "union", "map"}
   Depth3Cons = {"arr", "opt", "union", "map"}
+  LitNames = {"s", "dq", "bs", "empty", "digit", "sq", "bsn", "bsdq", "nl", "cr", "tab", "ctl", "ctld", "ctlF", "ctldd", "nul", "nuld", "bel", "esc", "escd", "del", "nel", "u8", "u8d", "cjk", "astral", "0", "1", "-1", "-2", "i32", "-i32", "f53", "max", "-max", "true", "false"}
+  LitDepth2Kinds = {"union", "opt", "arr", "map", "rec"}
 INVARIANTS FitsOk DepthOk Emit
